@@ -168,6 +168,24 @@ fn bloom_bits_are_independent_cells() {
                 return;
             }
         }
+        // every insertion path and the query path walk the same probe sequence, also for hashes that differ only in their high
+        // or only in their low bits
+        for (n, via_coa) in [(0u64, false), (1, true)] {
+            b.reset();
+            for k in 0..40u64 {
+                let h = match k % 5 { 0 => k << 32, 1 => (k + 1) << 55, 2 => k, 3 => rng.edgy(), _ => rng.next() };
+                let desc = if via_coa { "contains_or_add" } else { "add" };
+                if via_coa { b.contains_or_add(h); } else { b.add(h); }
+                if !b.contains(h) || b.contains_or_add(h) {
+                    fail("bloom_bits_are_independent_cells", "C14:bloom.add.present", &["C14", "C13"], "Bloom::contains_or_add", format!("Bloom::new({}, 0.01); {}({:#x}); contains({:#x}) / contains_or_add({:#x})", cap, desc, h, h, h),
+                        "reported absent (or added twice)".into(), "present".into());
+                    return;
+                }
+            }
+            let _ = n;
+        }
+        b.reset();
+        for h in &added { b.add(*h); }
         if cap >= 100 {
             let probes = 20000u64;
             let mut fp = 0u64;
@@ -182,6 +200,37 @@ fn bloom_bits_are_independent_cells() {
         if added.iter().any(|h| b.contains(*h)) {
             fail("bloom_bits_are_independent_cells", "C14:bloom.clear.empty", &["C14", "C11"], "Bloom::clear", format!("cap {}", cap), "contains after clear".into(), "false".into());
             return;
+        }
+    }
+    });
+}
+
+/// [C15, C13] a batch of lookups handed to the estimator counts exactly like the same lookups recorded one by one - also when the
+/// sample window closes (the sketch is aged) in the middle of the batch.  (`TinyLFU::increments` contract, executable.)
+#[test]
+fn batch_increments_equal_single_increments() {
+    if !only("batch_increments_equal_single_increments") { return; }
+    guarded("batch_increments_equal_single_increments", || {
+    let mut rng = Rng::new(7);
+    for _ in 0..iters(300) {
+        let n = 1 + rng.below(40) as usize;
+        let (mut a, mut b) = match (TinyLFU::new(n), TinyLFU::new(n)) { (Ok(a), Ok(b)) => (a, b), _ => return };
+        let keys: Vec<u64> = (0..5).map(|_| rng.edgy()).collect();
+        let mut hist: Vec<Vec<u64>> = Vec::new();
+        for _ in 0..4 {
+            let len = rng.below(12) as usize;
+            let batch: Vec<u64> = (0..len).map(|_| keys[rng.below(5) as usize]).collect();
+            hist.push(batch.clone());
+            let _ = a.increments(batch.clone());
+            for k in &batch { let _ = b.increment(*k); }
+            for k in &keys {
+                if a.estimate(*k) != b.estimate(*k) || a.w != b.w {
+                    fail("batch_increments_equal_single_increments", "C15:tlfu.increments.every-key-counted", &["C15", "C13"], "TinyLFU::increments",
+                        format!("TinyLFU::new({}); increments for each batch of {:?}; estimate({})", n, hist, k), format!("estimate {} (window position {})", a.estimate(*k), a.w),
+                        format!("{} (window position {}): what the same keys give when recorded one by one with increment()", b.estimate(*k), b.w));
+                    return;
+                }
+            }
         }
     }
     });
